@@ -640,5 +640,6 @@ def run_s11_s12(chk, repo):
     theta_cursor(chk, S12, repo)
     # the writer of $OMEGA / $THETA is shared with C04: its scale-conversion order, classification of old parameters and
     # comment handling decide what an unedited model looks like after update_source as well
-    from rules.C04b import run_p13_p15
+    from rules.C04b import run_p13_p15, run_p16
     run_p13_p15(chk, repo)
+    run_p16(chk, repo)
